@@ -136,11 +136,13 @@ def c09(tier, seed):
         if tier == 'quick':
             jobs.append(J('vh_c09_from_int', [0, (-2 ** 31) & 0xffffffff, 99999], 'from_int n in [-2^31, 10^5) (%s)' % prof, profile=prof, cost=500))
         else:
-            jobs.append(J('vh_c09_from_int', [1], 'from_int full i32 range (%s)' % prof, profile=prof, cost=5000))
+            jobs.append(J('vh_c09_from_int', [0, (-2 ** 31) & 0xffffffff, 9], 'from_int n in [-2^31, 10) (%s)' % prof, profile=prof, cost=100))
+            for k in range(2, 8):
+                jobs.append(J('vh_c09_from_int', [0, 10 ** (k - 1), 10 ** k - 1], 'from_int n with %d digits (%s)' % (k, prof), profile=prof, cost=500 * k))
     return {'jobs': jobs,
             'bounds': 'order: three strings of lengths 0..%d, symbolic characters; str_to_int: every length 0..11, symbolic characters, in BOTH '
                       'build configurations (dev: overflow-checks on, rel: off); from_int: %s; codes: full i32 / alphabet' % (
-                          L, 'n in [-2^31, 10^5)' if tier == 'quick' else 'full i32 range'),
+                          L, 'n in [-2^31, 10^5)' if tier == 'quick' else 'n in [-2^31, 10^7) split by digit count (the 8-10 digit case did not finish in the solver cap and is outside the claim)'),
             'outside': ['strings longer than 11 for str_to_int (they all overflow)', 'order on longer strings']}
 
 
@@ -206,7 +208,7 @@ def built_shapes(tier):
 def built_jobs(tier, whats):
     jobs = []
     L = 1 if tier == 'quick' else 2
-    names = {0: 'structure', 1: 'remove_unreachable', 2: 'minimize', 3: 'prune+minimize', 4: 'minimize+prune'}
+    names = {0: 'structure', 1: 'remove_unreachable', 2: 'minimize', 3: 'prune+minimize', 4: 'minimize+prune', 5: 'char_set_next/str_next'}
     if 0 in whats:
         jobs.append(J('vh_c14_built', [2, 1, 1, 0, 0, 0, 0, 1], 'built automaton structure: 2 states whose labels [0,x] and [x+1,MAX] jointly tile the alphabet', cost=500))
     if 4 in whats:
@@ -237,7 +239,7 @@ def c13(tier, seed):
 
 
 def c14(tier, seed):
-    jobs = built_jobs(tier, [0, 1, 4])
+    jobs = built_jobs(tier, [0, 1, 4, 5])
     nm = [(1, 1), (2, 2), (3, 2), (2, 3), (3, 3)] if tier == 'quick' else [(1, 1), (2, 2), (3, 2), (2, 3), (3, 3), (4, 3), (3, 4), (4, 4)]
     for n, m in nm:
         for d in (0, 1):
@@ -253,7 +255,13 @@ def c04(tier, seed):
     jobs = []
     nm = [(1, 1), (2, 1), (2, 2), (3, 1), (3, 2), (4, 1)] if tier == 'quick' else [(1, 1), (2, 1), (2, 2), (3, 1), (3, 2), (3, 3), (4, 1), (4, 2), (4, 3), (5, 1)]
     for n, m in nm:
-        jobs.append(J('vh_c04_table', [n, m], 'Hopcroft on an arbitrary %d-state %d-letter table' % (n, m), cost=(n ** (n * m)) * 2 ** n))
+        jobs.append(J('vh_c04_table', [n, m, 0], 'Hopcroft on an arbitrary %d-state %d-letter table' % (n, m), cost=(n ** (n * m)) * 2 ** n))
+    if tier == 'quick':
+        # the full 5x1 and 4x2 spaces belong to the thorough tier (28 000+ paths each); the quick tier keeps two slices of
+        # them with concrete final sets (symbolic successors), among them the slices in which the repaired take_list
+        # defect (known_findings.txt) manifests
+        for n, m, mask in [(5, 1, 0b10100), (5, 1, 0b00011), (5, 1, 0b01110)]:
+            jobs.append(J('vh_c04_table', [n, m, mask + 1], 'Hopcroft on %d-state %d-letter tables with final set mask %s (successors symbolic)' % (n, m, bin(mask)), cost=n ** (n * m)))
     jobs += built_jobs(tier, [2, 3])
     return {'jobs': jobs,
             'bounds': 'Minimizer::refine on every complete transition table with %s (states x letters): all successors and final flags symbolic, '
@@ -399,9 +407,13 @@ def c07(tier, seed):
                 sel = [rnd.randrange(8) for _ in range(4)]
                 extra = 2 | (1 << 4) | (sel[0] << 8) | (sel[1] << 12) | (sel[2] << 16) | (sel[3] << 20)
                 jobs.append(RJ('vh_c07_hashcons', 0, 1, b, extra, sh, 'hash-consing, history %s: %s' % ([names[x] for x in sel], S.show(sh)), cost=60))
-    wshapes = [sh for sh in shapes if costs.get(S.show(sh), 0) <= 12.0] if tier == 'quick' else shapes
+    # cache-order variant: every sub-term is queried before the term itself (one concrete history per shape)
+    for sh in (hist if tier == 'thorough' else [x for x in hist if 'comp' in S.show(x) or 'diff' in S.show(x)]):
+        extra = 1 | (1 << 4) | (1 << 5) | (0 << 8) | (4 << 12)
+        jobs.append(RJ('vh_c07_hashcons', 0, 1, b, extra, sh, 'hash-consing, sub-terms queried first (derivative cache order): %s' % S.show(sh), cost=60))
+    wshapes = [sh for sh in shapes if costs.get(S.show(sh), 99) <= 12.0] if tier == 'quick' else shapes
     for sh in wshapes:
-        jobs.append(RJ('vh_c07_wrappers', 1, 1, b, 0, sh, 'thread-local manager history: %s' % S.show(sh)))
+        jobs.append(RJ('vh_c07_wrappers', 1, 1, b, 0 if tier == 'quick' else 1, sh, 'thread-local manager history: %s' % S.show(sh)))
     return regex_spec(jobs, shapes, tier, 'rebuild after histories taken from a menu of 8 operations (char, concat, union, complement, derivative, compile, emptiness, star) '
                       'before and after the first build, on %d shapes: quick = 8 concrete one-step histories per shape (every menu entry before, rotated entry after), '
                       'thorough = all 64 one-step histories by symbolic selectors plus seed-chosen two-step histories; pointer identity, == iff identity, complement '
@@ -413,7 +425,7 @@ def c10(tier, seed):
     ns, tl, b = ((0, 1, 2), 1, 2) if tier == 'quick' else ((0, 1, 2, 3), 1, 2)
     jobs = [RJ('vh_c10_replace', 1, n, b, tl, sh, 'replace_re / replace_re_all pattern %s |s|=%d |t|=%d' % (S.show(sh), n, tl)) for sh in shapes for n in ns]
     # longer subjects for patterns whose matches can overlap a failed partial match (needs |pattern| >= 3, |s| >= 4)
-    long_pats = [('str', 3), ('concat', 'char', ('concat', 'char', 'char')), ('union', ('str', 3), ('str', 2))]
+    long_pats = [('str', 3)] if tier == 'quick' else [('str', 3), ('concat', 'char', ('concat', 'char', 'char')), ('union', ('str', 3), ('str', 2))]
     for sh in long_pats:
         for n in ((4,) if tier == 'quick' else (4, 5)):
             jobs.append(RJ('vh_c10_replace', 1, n, b, 1, sh, 'replace_re / replace_re_all pattern %s |s|=%d |t|=1' % (S.show(sh), n)))
